@@ -11,7 +11,9 @@
     // maxOccurs present and neither "1" nor "0" (a count above one, or "unbounded")
     pub open spec fn may_repeat(g: Node) -> bool { match attr(g, "maxOccurs"@) { Some(v) => v != "1"@ && v != "0"@, None => false } }
     pub open spec fn min0(g: Node) -> bool { attr(g, "minOccurs"@) == Some("0"@) }
+    #[verifier::opaque]
     pub open spec fn vec_spec(n: Node) -> bool { may_repeat(n) || exists|i: int| encl(n, i) && may_repeat(#[trigger] anc(n)[i]) }
+    #[verifier::opaque]
     pub open spec fn opt_spec(n: Node) -> bool {
         if tag(n) == "attribute"@ { attr(n, "use"@) != Some("required"@) }
         else { min0(n) || exists|i: int| encl(n, i) && (min0(#[trigger] anc(n)[i]) || tag(anc(n)[i]) == "choice"@) }
@@ -62,7 +64,9 @@
         ensures
             (may_repeat(n) || pv) == vec_spec(n),
             tag(n) != "attribute"@ ==> (min0(n) || po || ic) == opt_spec(n),
+            tag(n) == "attribute"@ ==> opt_spec(n) == (attr(n, "use"@) != Some("required"@)),
     {
+        reveal(vec_spec); reveal(opt_spec);
         if pv { let i = choose|i: int| 0 <= i < groups.len() && may_repeat(#[trigger] groups[i]); assert(encl(n, i + 1) && may_repeat(anc(n)[i + 1])); }
         if exists|i: int| encl(n, i) && may_repeat(#[trigger] anc(n)[i]) {
             let i = choose|i: int| encl(n, i) && may_repeat(#[trigger] anc(n)[i]); assert(may_repeat(groups[i - 1]));
